@@ -18,8 +18,12 @@
    placeholders, each matching the masters the element is written in; tag by tag, as Full items, or any mix.
    Every composed write -> read theorem has a sibling [..._strong] whose conclusion is the outcome list itself
    ([p_run ... = items_forest 0 f ++ [ONone]]: exactly the items, with offsets, then the clean end - no error), not its image
-   under [out_tag], which cannot tell ONone from an error or budget outcome (C01_out_tag_blind). *)
+   under [out_tag], which cannot tell ONone from an error or budget outcome (C01_out_tag_blind).
+   The start hypothesis [dstart] of the second class is PROVED for every specification whose declared paths extend the
+   declared path of their parent ([consistent], Proofs/DStart.v), in particular for every specification the derive macro
+   generates: the theorems [..._known_consistent_...] / [..._known_derived_...] have no start hypothesis. *)
 From Ebml Require Import Base Tools Spec Writer Reader Pure Encode Proofs.Tactics Proofs.ReaderIO Proofs.Refine Proofs.PureProofs Proofs.RollUp Proofs.RoundTrip Proofs.RoundTripKnown Proofs.RoundTripRaw Proofs.WriteEnc Proofs.WriteFull Proofs.WriteMixed Proofs.WriteEncG Proofs.BufferSimErr Proofs.AuditRoundTrip.
+From Ebml Require Import Derive Proofs.DStart.
 
 (* every conforming document — any nesting depth, any payloads, any size widths, any subset of masters of unknown size — is
    read back as exactly its items (masters as Start/End pairs, offsets of the first byte of each element), then None *)
@@ -245,6 +249,8 @@ Proof. vm_compute. repeat split; reflexivity. Qed.
    placeholder-free is a top-level element (so its path is the empty one): [f = g1 .. gk :: r :: ...] where no element
    inside g1 .. gk has a placeholder-free path ([globb]) and r is declared with the empty path (or there is no r).
    In particular every document whose first top-level element is a root element ([starts_at_root]).
+   It is a consequence of [kconf] for every specification whose paths extend their parent's path ([consistent]; every
+   specification generated by the derive macro): C01_consistent_dstart, C01_reader_roundtrip_known_consistent_partial below.
    The reader validates nothing until it meets the first placeholder-free path, and then seeds the parents that path names
    below the masters already open; met inside an open master, the parents are there twice and the element is rejected. *)
 Theorem C01_reader_roundtrip_known_partial : forall c f, strict c -> c_buffered c = [] -> c_emit_eof c = true ->
@@ -360,6 +366,83 @@ Example C01_ex_known_needs_dstart :
   p_run C01k_cfg (enc_forest [RNode 129 (Some 1%nat) []; inner]) [RAll] = items_forest 0 [RNode 129 (Some 1%nat) []; inner] ++ [ONone].
 Proof. vm_compute. split; reflexivity. Qed.
 
+(* ------------------------------------------------------------------ the start hypothesis holds for derived specifications *)
+(* [consistent sp] (Proofs/DStart.v): for every entry e of sp whose declared path is non-empty and ends in an identifier,
+   [e_path e = q ++ [PId p]]: p is declared a master and the declared path of p followed by p is that path
+   ([get_type sp p = Some DMaster /\ get_path sp p ++ [PId p] = e_path e]); "every entry" = every row of the table, shadowed
+   or not.  Paths that end in a placeholder are not constrained.  [consistentb] decides it. *)
+Theorem C01_consistent_decidable : forall sp, consistentb sp = true <-> consistent sp.
+Proof. exact consistentb_iff. Qed.
+
+(* every specification generated by the derive macro ([derive d = Some sp], Model/Derive.v) is consistent *)
+Theorem C01_derive_consistent : forall d sp, derive d = Some sp -> consistent sp.
+Proof. exact derive_consistent. Qed.
+
+(* for a consistent specification every top-level tree of a conforming known-size document ([kconf c [] t]) either is
+   declared with the empty path or contains no element at all whose declared path is placeholder-free ... *)
+Theorem C01_consistent_top_tree : forall c t, consistent (c_sp c) -> kconf c [] t ->
+  get_path (c_sp c) (rid t) = [] \/ globb c t = true.
+Proof. exact consistent_top_tree. Qed.
+
+(* ... hence the start hypothesis: [consistent (c_sp c)] and [Forall (kconf c []) f] imply [dstart c f]; no other condition *)
+Theorem C01_consistent_dstart : forall c, consistent (c_sp c) -> forall f, Forall (kconf c []) f -> dstart c f.
+Proof. exact consistent_dstart. Qed.
+
+(* the same for documents with raw leaves: [consistent (c_sp c)] and [Forall (xconf c []) f] imply [xdstart c f] *)
+Theorem C01_consistent_xdstart : forall c, consistent (c_sp c) -> forall f, Forall (xconf c []) f -> xdstart c f.
+Proof. exact consistent_xdstart. Qed.
+
+(* C01_reader_roundtrip_known_partial without start hypothesis: strict configuration, no buffered masters, End items at the end
+   of the input, a consistent specification; every conforming document of the second class (every master of known size,
+   declared paths - placeholders allowed - match the chain of masters) is read back as exactly its items, then None *)
+Theorem C01_reader_roundtrip_known_consistent_partial : forall c f, strict c -> c_buffered c = [] -> c_emit_eof c = true ->
+  consistent (c_sp c) -> Forall (kconf c []) f -> p_run c (enc_forest f) [RAll] = items_forest 0 f ++ [ONone].
+Proof. exact reader_roundtrip_known_consistent. Qed.
+
+(* ... in particular when the specification of the configuration is one the derive macro generates *)
+Theorem C01_reader_roundtrip_known_derived_partial : forall c f d, strict c -> c_buffered c = [] -> c_emit_eof c = true ->
+  derive d = Some (c_sp c) -> Forall (kconf c []) f -> p_run c (enc_forest f) [RAll] = items_forest 0 f ++ [ONone].
+Proof. exact reader_roundtrip_known_derived. Qed.
+
+(* ... by the buffered reader, for every buffer capacity and every way the source chunks its reads ([calm script]) *)
+Theorem C01_reader_roundtrip_known_consistent_buffered_partial : forall c f cap0 script, calm script -> strict c ->
+  c_buffered c = [] -> c_emit_eof c = true -> consistent (c_sp c) -> Forall (kconf c []) f ->
+  run_reader c cap0 script (enc_forest f) [RAll] = items_forest 0 f ++ [ONone].
+Proof. exact reader_roundtrip_known_consistent_buffered. Qed.
+
+(* ... on the tags: the tags of the document, then None (same hypotheses as C01_reader_roundtrip_known_consistent_partial) *)
+Theorem C01_reader_roundtrip_known_consistent_tags_partial : forall c f, strict c -> c_buffered c = [] -> c_emit_eof c = true ->
+  consistent (c_sp c) -> Forall (kconf c []) f -> map out_tag (p_run c (enc_forest f) [RAll]) = map Some (tags_forest f) ++ [None].
+Proof. exact reader_roundtrip_known_consistent_tags. Qed.
+
+(* the specification of C01_ex_known_needs_dstart is not consistent (16643 is declared [Top] although Top is declared [(-)]),
+   and the macro rejects the declaration it would come from: Root; Top with doc_path (-); Leaf with doc_path Top *)
+Example C01_ex_known_needs_dstart_not_derivable :
+  consistentb C01k_sp = false /\
+  derive [ {| v_name := 3; v_attrs := [AId 129; AType (Some DMaster)] |};
+           {| v_name := 4; v_attrs := [AId 132; AType (Some DMaster); APath [PPGlobal None None]] |};
+           {| v_name := 5; v_attrs := [AId 16643; AType (Some DBinary); APath [PPIdent 4]] |} ] = None.
+Proof. vm_compute. split; reflexivity. Qed.
+
+(* the declaration the macro accepts: Leaf with doc_path (-)/Top.  Its table is consistent and the document of
+   C01_ex_known_needs_dstart (Top { Leaf } alone, no root element before it) is read back as exactly its items *)
+Definition C01d_sp : spec :=
+  [ {| e_id := 129; e_ty := DMaster; e_path := [] |}; {| e_id := 132; e_ty := DMaster; e_path := [PGlobal None None] |};
+    {| e_id := 16643; e_ty := DBinary; e_path := [PGlobal None None; PId 132] |};
+    {| e_id := 191; e_ty := DBinary; e_path := [PGlobal (Some 1) None] |}; {| e_id := 236; e_ty := DBinary; e_path := [PGlobal None None] |} ].
+Definition C01d_cfg : cfg :=
+  {| c_sp := C01d_sp; c_allow_id := false; c_allow_hier := false; c_allow_over := false; c_max := Some 4000000000; c_buffered := [];
+     c_emit_eof := true |}.
+Example C01_ex_known_derived_run :
+  let inner := RNode 132 (Some 1%nat) [ RLeaf 16643 (VB [7]) [7] 1%nat ] in
+  derive [ {| v_name := 3; v_attrs := [AId 129; AType (Some DMaster)] |};
+           {| v_name := 4; v_attrs := [AId 132; AType (Some DMaster); APath [PPGlobal None None]] |};
+           {| v_name := 5; v_attrs := [AId 16643; AType (Some DBinary); APath [PPGlobal None None; PPIdent 4]] |} ] = Some C01d_sp /\
+  consistentb C01d_sp = true /\
+  p_run C01d_cfg (enc_forest [inner]) [RAll] = items_forest 0 [inner] ++ [ONone] /\
+  p_run C01d_cfg (enc_forest [inner]) [RAll] = [OItem (TStart 132) 0; OItem (TElem 16643 (VB [7])) 2; OItem (TEnd 132) 0; ONone].
+Proof. vm_compute. repeat split; reflexivity. Qed.
+
 (* ------------------------------------------------------------------ raw tags, unknown ids tolerated *)
 (* PARTIAL — C01's last sentence, "raw tags with well-formed ids round-trip when unknown ids are allowed", for documents in
    which every master has a known size.
@@ -390,6 +473,12 @@ Proof.
   intros c f Hc Hd. split; [|apply (kconf_xdstart c []); assumption].
   rewrite Forall_forall in *. intros t Hin. apply kconf_xconf, Hc, Hin.
 Qed.
+
+(* raw tags, consistent specification, no start hypothesis: [lenient_id c], no buffered masters, End items at the end of the
+   input, [consistent (c_sp c)], [Forall (xconf c []) f]; the document is read back as exactly its items, then None *)
+Theorem C01_reader_roundtrip_raw_consistent_partial : forall c f, lenient_id c -> c_buffered c = [] -> c_emit_eof c = true ->
+  consistent (c_sp c) -> Forall (xconf c []) f -> p_run c (enc_forest f) [RAll] = items_forest 0 f ++ [ONone].
+Proof. exact reader_roundtrip_raw_consistent. Qed.
 
 Theorem C01_raw_leaf_in_class : forall c ids id pl sl, c_allow_id c = true -> raw_leaf_ok c id pl sl ->
   xconf c ids (RLeaf id (VRaw pl) pl sl).
@@ -592,6 +681,33 @@ Theorem C01_mixed_roundtrip_known_partial_strong : forall c d f ps, strict c -> 
   p_run c (snd (run_writer (c_sp c) (pops_forest d f ps) [])) [RAll] = items_forest 0 f ++ [ONone] /\
   map out_tag (items_forest 0 f) = map Some (flat (wtags (pops_forest d f ps))).
 Proof. exact mixed_write_read_roundtrip_known_strong. Qed.
+
+(* write -> read for the second class without start hypothesis, consistent specification (on the outcome list).  Hypotheses:
+   [strict c], [c_buffered c = []], [c_emit_eof c = true], [consistent (c_sp c)], [Forall (wconfg (c_sp c) d []) f],
+   [Forall (rconf c) f], every master of known size.  Every write succeeds, the reader yields exactly the items of the document
+   then ONone, and their tags are the written tags. *)
+Theorem C01_roundtrip_known_consistent_partial_strong : forall c d f, strict c -> c_buffered c = [] -> c_emit_eof c = true ->
+  consistent (c_sp c) -> Forall (wconfg (c_sp c) d []) f -> Forall (rconf c) f -> Forall all_known f ->
+  Forall (fun r => fst r = WOk) (fst (run_writer (c_sp c) (wops_forest d f) [])) /\
+  p_run c (snd (run_writer (c_sp c) (wops_forest d f) [])) [RAll] = items_forest 0 f ++ [ONone] /\
+  map out_tag (items_forest 0 f) = map op_tag (wops_forest d f).
+Proof. exact write_read_roundtrip_known_consistent_strong. Qed.
+
+(* ... with every top-level master given as one Full item ([fconfg] in place of [wconfg]) *)
+Theorem C01_full_roundtrip_known_consistent_partial_strong : forall c d f, strict c -> c_buffered c = [] -> c_emit_eof c = true ->
+  consistent (c_sp c) -> Forall (fconfg (c_sp c) d []) f -> Forall (rconf c) f -> Forall all_known f ->
+  Forall (fun r => fst r = WOk) (fst (run_writer (c_sp c) (fops d f) [])) /\
+  p_run c (snd (run_writer (c_sp c) (fops d f) [])) [RAll] = items_forest 0 f ++ [ONone] /\
+  map out_tag (items_forest 0 f) = map Some (flat (map full_tag f)).
+Proof. exact full_write_read_roundtrip_known_consistent_strong. Qed.
+
+(* ... and with any mix of Full items and separate Start / End calls ([pconfg_forest (c_sp c) d [] f ps]) *)
+Theorem C01_mixed_roundtrip_known_consistent_partial_strong : forall c d f ps, strict c -> c_buffered c = [] -> c_emit_eof c = true ->
+  consistent (c_sp c) -> pconfg_forest (c_sp c) d [] f ps -> Forall (rconf c) f -> Forall all_known f ->
+  Forall (fun r => fst r = WOk) (fst (run_writer (c_sp c) (pops_forest d f ps) [])) /\
+  p_run c (snd (run_writer (c_sp c) (pops_forest d f ps) [])) [RAll] = items_forest 0 f ++ [ONone] /\
+  map out_tag (items_forest 0 f) = map Some (flat (wtags (pops_forest d f ps))).
+Proof. exact mixed_write_read_roundtrip_known_consistent_strong. Qed.
 
 (* every presentation of a document written with default options whose masters all have a known size conforms: as Full items
    ([fconfg]) and as any mix of Full items and separate Start / End calls ([pconfg_forest], every [ps]) *)
